@@ -80,29 +80,65 @@ def resource_number(r):
     return r
 
 
+VREV = {}
+VFWD = {}
+
+
+def vertex_namer(kind):
+    """How the integer vertex numbers of the JSON description become the caller's vertex objects."""
+    if kind == "tuple":                # e.g. (population, index)
+        return lambda v: ("pop%d" % (v % 3), v)
+    if kind == "frozenset":
+        return lambda v: frozenset([v, "member"])
+    if kind == "str":
+        return lambda v: "vertex%d" % v
+    return lambda v: v
+
+
+def vnum(v):
+    """Back from a vertex object to its number (objects the caller never supplied stay as they are)."""
+    try:
+        return VREV.get(v, v)
+    except TypeError:
+        return v
+
+
+def vnums(l):
+    return None if l is None else [vnum(v) for v in l]
+
+
 def build(c):
     m = c["machine"]
+    V = vertex_namer(c.get("vkind", "int"))
+    VREV.clear()
+    VFWD.clear()
+    for v, _ in c["vres"]:
+        VREV[V(v)] = v
+        VFWD[v] = V(v)
     R = resource_namer(c.get("reskind", "int"))
     machine = Machine(m["w"], m["h"], chip_resources=OrderedDict((R(r), q) for r, q in m["res"]),
                       chip_resource_exceptions=OrderedDict(
                           (tuple(xy), OrderedDict((R(r), q) for r, q in rs)) for xy, rs in m["exc"]),
                       dead_chips=set(tuple(xy) for xy in m["dead"]),
                       dead_links=set((x, y, Links(l)) for x, y, l in m.get("dead_links", [])))
-    vres = OrderedDict((v, OrderedDict((R(r), q) for r, q in rq)) for v, rq in c["vres"])
-    nets = [Net(s, list(sinks), w) for s, sinks, w in c["nets"]]
+    vres = OrderedDict((V(v), OrderedDict((R(r), q) for r, q in rq)) for v, rq in c["vres"])
+    # a net with one sink is written in the documented scalar form Net(source, sink) when the case says so
+    W = lambda w: float(w) if isinstance(w, str) else w          # "nan" travels as a string
+    nets = [Net(V(s), V(sinks[0]), W(w)) if (c.get("scalar_sinks") and len(sinks) == 1)
+            else Net(V(s), [V(x) for x in sinks], W(w)) for s, sinks, w in c["nets"]]
     cs = []
     for k in c["constraints"]:
         if k[0] == "loc":
-            cs.append(LocationConstraint(k[1], tuple(k[2])))
+            cs.append(LocationConstraint(V(k[1]), tuple(k[2])))
         elif k[0] == "same":
-            cs.append(SameChipConstraint(list(k[1])))
+            cs.append(SameChipConstraint([V(x) for x in k[1]]))
         elif k[0] == "reserve":
             cs.append(ReserveResourceConstraint(R(k[1]), slice(k[2], k[3]),
                                                 None if k[4] is None else tuple(k[4])))
         elif k[0] == "align":
             cs.append(AlignResourceConstraint(R(k[1]), k[2]))
         else:
-            cs.append(RouteEndpointConstraint(k[1], Routes(k[2])))
+            cs.append(RouteEndpointConstraint(V(k[1]), Routes(k[2])))
     return vres, nets, machine, cs
 
 
@@ -241,7 +277,7 @@ class StepLog(object):
         for k, mv in enumerate(self.subs):
             if v is mv:
                 return -(k + 1)
-        return v
+        return vnum(v)
 
 
 class ChoiceSpy(object):
@@ -269,7 +305,7 @@ def outcome(fn):
     except Exception as e:
         return ["other", type(e).__name__, str(e)[:200]]
     try:
-        return ["ok", sorted([v, list(xy)] for v, xy in pl.items())]
+        return ["ok", sorted([vnum(v), list(xy)] for v, xy in pl.items())]
     except Exception as e:             # a placement that is not {vertex: (x, y)}
         return ["other", "Malformed:" + type(e).__name__, repr(pl)[:200]]
 
@@ -351,25 +387,25 @@ def run_case(c, per_cfg_s):
     if vorder is not None or corder is not None:
         vr, nets, m, cs = fresh()
         out["seq_custom"] = guarded(lambda: sequential.place(
-            vr, nets, m, cs, None if vorder is None else list(vorder),
+            vr, nets, m, cs, None if vorder is None else [VFWD.get(v, v) for v in vorder],
             None if corder is None else [tuple(xy) for xy in corder]), per_cfg_s)
     # 3 breadth first
     for r in REC.values():
         r.last = None
     vr, nets, m, cs = fresh()
     out["bf"] = guarded(lambda: breadth_first.place(vr, nets, m, cs), per_cfg_s)
-    aux["bf_v"] = REC["bf_v"].last
+    aux["bf_v"] = vnums(REC["bf_v"].last)
     # 4 hilbert (default: breadth-first vertex order) and with the dictionary's vertex order
     vr, nets, m, cs = fresh()
     out["hilbert"] = guarded(lambda: hilbert.place(vr, nets, m, cs), per_cfg_s)
-    aux["hil_v"] = REC["hil_v"].last
+    aux["hil_v"] = vnums(REC["hil_v"].last)
     aux["hil_c"] = None if REC["hil_c"].last is None else [list(xy) for xy in REC["hil_c"].last]
     vr, nets, m, cs = fresh()
     out["hilbert_nobf"] = guarded(lambda: hilbert.place(vr, nets, m, cs, breadth_first=False), per_cfg_s)
     # 5 rcm
     vr, nets, m, cs = fresh()
     out["rcm"] = guarded(lambda: rcm.place(vr, nets, m, cs), per_cfg_s)
-    aux["rcm_v"] = REC["rcm_v"].last
+    aux["rcm_v"] = vnums(REC["rcm_v"].last)
     aux["rcm_c"] = None if REC["rcm_c"].last is None else [list(xy) for xy in REC["rcm_c"].last]
     # 6 random placer, scripted choices
     vr, nets, m, cs = fresh()
